@@ -52,6 +52,7 @@ def render(stmts, ind=1):
         elif k == "borrow2": out.append(f"{pad}cx({txt(s[1])}, {txt(s[2])})")
         elif k == "consume": out.append(f"{pad}discard({txt(s[1])})")
         elif k == "move": out.append(f"{pad}{txt(s[1])} = {txt(s[2])}")
+        elif k == "seti": out.append(f"{pad}{txt(s[1])} = 5")
         elif k == "pack": out.append(f"{pad}t = ({txt(s[1])}, {txt(s[2])})")
         elif k == "unpack": out.append(f"{pad}{txt(s[1])}, {txt(s[2])} = t")
         elif k == "mk": out.append(f"{pad}s = P({txt(s[1])}, {txt(s[2])})")
@@ -60,6 +61,7 @@ def render(stmts, ind=1):
             if s[2] is not None:
                 out.append(f"{pad}else:"); out += render(s[2], ind + 1)
         elif k == "while": out.append(f"{pad}while b:"); out += render(s[1], ind + 1)
+        elif k == "whiletrue": out.append(f"{pad}while True:"); out += render(s[1], ind + 1)
         elif k == "break": out.append(f"{pad}break")
         elif k == "continue": out.append(f"{pad}continue")
         elif k == "ret": out.append(f"{pad}return")
@@ -85,6 +87,7 @@ class Ref:
         self.params = SIGS[sig][2]
         self.retq = SIGS[sig][1] == "qubit"
         self.dead = False
+        self.oob = False
     def init(self):
         st = {x: N for x in ALL_LEAVES}
         for p in self.params: st[p] = L
@@ -92,6 +95,10 @@ class Ref:
         st["s#def"] = N
         return frozenset(st.items())
     def need(self, st, x, want):
+        if st[x] == "I":
+            if want == N: return             # a classical value may be overwritten / dropped
+            self.oob = True                  # a classical value used where a qubit is expected: typing, not linearity — outside this oracle
+            raise Reject()
         if st[x] != want: raise Reject()
     def at_exit(self, st):
         for x in ALL_LEAVES:
@@ -100,8 +107,17 @@ class Ref:
             elif st[x] == L: raise Reject()
     def step(self, s, st):
         st = dict(st); k = s[0]
+        reads = {"borrow": s[1:2], "borrow2": s[1:3], "consume": s[1:2], "move": s[2:3], "pack": s[1:3], "mk": s[1:3]}.get(k, ())
+        if any(st[x] == "I" for x in reads):
+            self.oob = True                  # a classical value is read: typing, not linearity — outside this oracle
+            raise Reject()
         if k == "new":
             self.assign(st, s[1])
+        elif k == "seti":
+            # the name is rebound to a classical value: allowed iff it holds no live qubit; afterwards it holds none
+            if s[1] == "p" or s[1] in TUPLE_ASSIGNABLE: raise Reject()
+            if s[1] in ("s.a", "s.b"): raise Reject()            # a field keeps its declared type
+            self.need(st, s[1], N); st[s[1]] = "I"
         elif k == "borrow": self.need(st, s[1], L)
         elif k == "borrow2":
             if s[1] == s[2]: raise Reject()
@@ -150,6 +166,16 @@ class Ref:
                     if new == head: break
                     head = new
                 states = head | seen_exit
+            elif k == "whiletrue":
+                # left through `break` only (constant conditions are folded)
+                head, seen_exit = set(states), set()
+                while True:
+                    body_out, b1, c1 = self.run(s[1], head)
+                    new = head | body_out | c1
+                    seen_exit |= b1
+                    if new == head: break
+                    head = new
+                states = seen_exit
             elif k == "break": brk |= states; states = set()
             elif k == "continue": cont |= states; states = set()
             elif k == "ret":
@@ -186,6 +212,8 @@ def valid_simple(st, params):
     out = []
     for x in plain + fields:
         if st[x] == N: out.append(("new", x))
+    for x in plain:
+        if st[x] == N and x != "o": out.append(("seti", x))
     for x in live:
         out.append(("borrow", x))
         if x != "p": out.append(("consume", x))
@@ -219,8 +247,8 @@ def equalize(st, target):
     """statements taking definite state st to target, or None"""
     out = []
     for x in ALL_LEAVES:
-        if st[x] == target[x]: continue
-        if st[x] == L and target[x] == N:
+        if st[x] == target[x] or {st[x], target[x]} == {"I", N}: continue
+        if st[x] == L and target[x] in (N, "I"):
             if x == "p": return None
             out.append(("consume", x))
         else:
@@ -246,7 +274,7 @@ def gen_valid(rng, sig):
                 if s1 is None: st = s2
                 elif s2 is None: st = s1
                 else:
-                    tgt = {x: (s1[x] if s1[x] == s2[x] else N) for x in s1}
+                    tgt = {x: (s1[x] if s1[x] == s2[x] else N) for x in s1}          # (int on one side only: the name is dead afterwards)
                     e1, e2 = equalize(s1, tgt), equalize(s2, tgt)
                     if e1 is None or e2 is None: continue
                     th = th + e1
@@ -261,6 +289,8 @@ def gen_valid(rng, sig):
                     e1 = equalize(s1, st)
                     if e1 is None: continue
                     body = body + e1
+                    if rng.random() < 0.35:
+                        out.append(("whiletrue", body + [("if", [("break",)], None)])); continue
                 out.append(("while", body))
             elif in_loop and r < 0.40:
                 e1 = equalize(st, head)
@@ -307,7 +337,7 @@ def simple_positions(prog, path=()):
         if s_[0] == "if":
             out += simple_positions(s_[1], path + (i, 1))
             if s_[2] is not None: out += simple_positions(s_[2], path + (i, 2))
-        elif s_[0] == "while": out += simple_positions(s_[1], path + (i, 1))
+        elif s_[0] in ("while", "whiletrue"): out += simple_positions(s_[1], path + (i, 1))
         else: out.append(path + (i,))
     return out
 
@@ -324,7 +354,7 @@ def edit(rng, sig, prog):
     i = p[-1]
     params = SIGS[sig][2]
     anyleaf = ["q", "r", "s.a", "s.b", "t.0", "t.1"] + params
-    rnd = lambda: rng.choice([("new", rng.choice(["q", "r", "s.a", "s.b", "o"])), ("borrow", rng.choice(anyleaf)), ("consume", rng.choice(anyleaf)),
+    rnd = lambda: rng.choice([("new", rng.choice(["q", "r", "s.a", "s.b", "o"])), ("seti", rng.choice(["q", "r"])), ("borrow", rng.choice(anyleaf)), ("consume", rng.choice(anyleaf)),
                               ("move", rng.choice(["q", "r", "s.a", "s.b"]), rng.choice(anyleaf)), ("borrow2", rng.choice(anyleaf), rng.choice(anyleaf)),
                               ("pack", rng.choice(["q", "r"]), rng.choice(["q", "r", "o"])), ("unpack", rng.choice(["q", "r"]), rng.choice(["q", "r"])), ("mk", rng.choice(["q", "r"]), rng.choice(["q", "r", "o"]))])
     k = rng.random()
@@ -334,7 +364,7 @@ def edit(rng, sig, prog):
     elif k < 0.75 and not jump: blk[i] = rnd()
     else: blk.insert(i, rnd())
     def fix(b):
-        return [tuple([x[0], fix(x[1]), None if x[2] is None else fix(x[2])]) if x[0] == "if" else ("while", fix(x[1])) if x[0] == "while" else tuple(x) for x in b]
+        return [tuple([x[0], fix(x[1]), None if x[2] is None else fix(x[2])]) if x[0] == "if" else (x[0], fix(x[1])) if x[0] in ("while", "whiletrue") else tuple(x) for x in b]
     return fix(prog)
 
 def fixed_family():
@@ -382,6 +412,30 @@ def fixed_family():
                [("while", [("consume", "o"), ("ret",)]), ("consume", "o")], [("consume", "o"), ("consume", "o")], [("new", "q"), ("mk", "o", "q"), ("consume", "s.a")],
                [("new", "q"), ("mk", "o", "q"), ("consume", "s.a"), ("consume", "s.b")], [("new", "q"), ("pack", "o", "q"), ("consume", "t.0"), ("consume", "t.1")]):
         progs.append(("owned", pr))
+    # a name rebound to a classical value (type-changing assignment) in one branch / after consumption
+    for pr in ([("new", "q"), ("consume", "q"), ("if", [("consume", "q"), ("seti", "q")], [("seti", "q")])], [("new", "q"), ("if", [("consume", "q"), ("seti", "q")], [("consume", "q")])],
+               [("new", "q"), ("if", [("seti", "q")], [("consume", "q")])], [("new", "q"), ("consume", "q"), ("seti", "q"), ("new", "q"), ("consume", "q")],
+               [("new", "q"), ("if", [("consume", "q"), ("seti", "q")], [("consume", "q"), ("seti", "q")]), ("new", "q"), ("consume", "q")],
+               [("new", "q"), ("while", [("consume", "q"), ("seti", "q"), ("new", "q")]), ("consume", "q")], [("seti", "q"), ("new", "q"), ("seti", "q")],
+               [("new", "q"), ("new", "r"), ("if", [("consume", "q"), ("seti", "q"), ("consume", "r")], [("consume", "r"), ("consume", "q")])]):
+        for sig in ("none", "borrowed"):
+            progs.append((sig, pr))
+    # `while True` loops, left through break / return only: a place consumed in the loop body is consumed on EVERY iteration
+    brk = [("if", [("break",)], None)]
+    for pr in ([("new", "q"), ("whiletrue", [("consume", "q")] + brk)], [("new", "q"), ("whiletrue", [("consume", "q"), ("break",)])], [("whiletrue", [("new", "q"), ("consume", "q")] + brk)],
+               [("new", "q"), ("whiletrue", [("consume", "q"), ("new", "q")] + brk), ("consume", "q")], [("new", "q"), ("whiletrue", [("borrow", "q")] + brk), ("consume", "q")],
+               [("new", "q"), ("whiletrue", [("consume", "q"), ("ret",)])], [("new", "q"), ("whiletrue", [("if", [("consume", "q"), ("ret",)], None)])],
+               [("new", "q"), ("new", "r"), ("mk", "q", "r"), ("whiletrue", [("consume", "s.a")] + brk), ("consume", "s.b")],
+               [("new", "q"), ("new", "r"), ("mk", "q", "r"), ("whiletrue", [("consume", "s.a"), ("new", "s.a")] + brk), ("consume", "s.a"), ("consume", "s.b")],
+               [("new", "q"), ("new", "r"), ("pack", "q", "r"), ("whiletrue", [("unpack", "q", "r"), ("consume", "q"), ("consume", "r")] + brk)],
+               [("new", "q"), ("whiletrue", [("move", "r", "q"), ("consume", "r")] + brk)], [("new", "q"), ("whiletrue", [("move", "r", "q"), ("move", "q", "r")] + brk), ("consume", "q")],
+               [("new", "q"), ("whiletrue", [("whiletrue", [("consume", "q"), ("break",)])] + brk)], [("new", "q"), ("while", [("whiletrue", [("consume", "q"), ("break",)])])]):
+        for sig in ("none", "borrowed"):
+            progs.append((sig, pr))
+    for pr in ([("whiletrue", [("consume", "o")] + brk)], [("whiletrue", [("consume", "o"), ("break",)])], [("whiletrue", [("borrow", "o")] + brk), ("consume", "o")]):
+        progs.append(("owned", pr))
+    for pr in ([("whiletrue", [("borrow", "p")] + brk)], [("whiletrue", [("consume", "p")] + brk)]):
+        progs.append(("borrowed", pr))
     for pr in ([("retv", "o")], [("new", "q"), ("retv", "o")], [("new", "q"), ("retv", "q")], [("new", "q"), ("consume", "o"), ("retv", "q")], [("if", [("retv", "o")], None)],
                [("if", [("retv", "o")], [("retv", "o")])], [("if", [("retv", "o")], None), ("new", "q"), ("retv", "q")], [("if", [("retv", "o")], None), ("retv", "o")]):
         progs.append(("retq", pr))
@@ -392,7 +446,7 @@ def programs(tier, chunk, nchunks):
     fixed = []
     for sig, pr in fixed_family()[chunk::nchunks]:
         ref = Ref(sig); v = ref.verdict(pr)
-        if v != "invalid" and not ref.dead: fixed.append((sig, pr, v))
+        if v != "invalid" and not ref.dead and not ref.oob: fixed.append((sig, pr, v))
     return fixed + random_programs(tier, chunk, nchunks)
 
 
@@ -413,7 +467,7 @@ def random_programs(tier, chunk, nchunks):
             if key in seen: continue
             seen.add(key)
             ref = Ref(sig); v = ref.verdict(pr)
-            if v == "invalid" or ref.dead: continue
+            if v == "invalid" or ref.dead or ref.oob: continue
             out.append((sig, pr, v))
     return out[:n]
 
@@ -468,7 +522,7 @@ prog = [tup(s) for s in prog]
 prog = [tuple(list(s[:1]) + [list(map(tup, p)) if isinstance(p, tuple) and p and isinstance(p[0], tuple) else p for p in s[1:]]) for s in prog]
 def fix(s):
     if s[0] == "if": return ("if", [fix(x) for x in s[1]], None if s[2] is None else [fix(x) for x in s[2]])
-    if s[0] == "while": return ("while", [fix(x) for x in s[1]])
+    if s[0] in ("while", "whiletrue"): return (s[0], [fix(x) for x in s[1]])
     return tuple(s)
 prog = [fix(s) for s in prog]
 want = Ref(I_["sig"]).verdict(prog)
